@@ -28,7 +28,7 @@ TRUSTED = ["harness/c13.py (pool; re-executing the registry module stands for a 
            "harness/bitd_gen.py: the ast walk that lists writes to self.<attr> outside __init__ and to module-level names",
            "io.BytesIO is modelled as an append-only byte list; struct.pack range checks as in lean/Drx/Bitd.lean",
            "correspondence is sampled over the stated pool"]
-ASSUMPTIONS = ["width, height, w_padding >= 0 (negative values are not generated)", "logging ignored",
+ASSUMPTIONS = ["width, height >= 0 (negative values are not generated; both offsets may be negative)", "logging ignored",
                "state reachable only through attributes of the registry instances (no C-level or closure state)"]
 
 
@@ -111,6 +111,12 @@ def pool(rng):
     P.append(("big-oy8", dict(c8, oy=5), False))
     P.append(("big-ox8", dict(c8, ox=9), False))
     P.append(("empty8", call(8, 0, 0, 0, 0, b""), False))
+    # negative left/top offsets (the record declares a canvas smaller than the image)
+    P.append(("neg-ox8", call(8, c8["W"] - 2, c8["H"], c8["ox"] - 2, c8["oy"], c8["data"]), True))
+    P.append(("neg-ox1", call(1, c1["W"] - 3, c1["H"], c1["ox"] - 3, c1["oy"], c1["data"]), False))
+    P.append(("neg-ox16", call(16, 1, 2, -2, 0, bytes([0x05, 1, 2, 3, 4, 5, 6, 0x05, 7, 8, 9, 10, 11, 12])), True))
+    P.append(("neg-ox32", call(32, 1, 1, -1, -1, bytes([0x07, 1, 2, 3, 4, 5, 6, 7, 8, 0x07, 1, 2, 3, 4, 5, 6, 7, 8])), False))
+    P.append(("neg-ox8-shortpal", dict(call(8, c8["W"] - 2, c8["H"], c8["ox"] - 2, c8["oy"], c8["data"]), clut=b"\x01"), False))
     return P
 
 
